@@ -31,7 +31,11 @@ REL = {"S-C01": ["C01", "C08", "C03", "C09"], "S-C02": ["C02", "C01", "C03", "C0
        "S7-C01": ["C01", "C03", "C08"], "S7-C02": ["C02", "C03", "C01"], "S7-C03": ["C03", "C02"], "S7-C04": ["C04", "C08"], "S7-C05": ["C05", "C07"],
        "S7-C06": ["C06", "C05"], "S7-C07": ["C07", "C02", "C03"], "S7-C08": ["C08", "C04", "C09"], "S7-C09": ["C09", "C15"], "S7-C10": ["C10"],
        "S7-C11": ["C11", "C13"], "S7-C12": ["C12"], "S7-C13": ["C13"], "S7-C14": ["C14"], "S7-C15": ["C15", "C09"], "S7-C16": ["C16"],
-       "S7-C17": ["C17", "C08"], "S7-C18": ["C18", "C10"], "S7-C19": ["C19", "C20"], "S7-C20": ["C20", "C19"]}
+       "S7-C17": ["C17", "C08"], "S7-C18": ["C18", "C10"], "S7-C19": ["C19", "C20"], "S7-C20": ["C20", "C19"],
+       "S8-C01": ["C01", "C18"], "S8-C02": ["C02", "C03", "C07"], "S8-C03": ["C03", "C02", "C01"], "S8-C04": ["C04"], "S8-C05": ["C05", "C07"],
+       "S8-C06": ["C06"], "S8-C07": ["C07", "C01", "C04"], "S8-C08": ["C08", "C03", "C09"], "S8-C09": ["C09"], "S8-C10": ["C10", "C12"],
+       "S8-C11": ["C11"], "S8-C12": ["C12", "C10"], "S8-C13": ["C13"], "S8-C14": ["C14"], "S8-C15": ["C15"], "S8-C16": ["C16", "C09"],
+       "S8-C17": ["C17"], "S8-C18": ["C18", "C01"], "S8-C19": ["C19"], "S8-C20": ["C20", "C19"]}
 only = sys.argv[1:] 
 out = {}
 mp = VERIF / "seeded" / "MATRIX.json"
